@@ -93,6 +93,7 @@ CANARIES = {
         ("regexes-canonicalised-as-values", "stix2/equivalence/pattern/transform/comparison.py", "text", ['        if ast.operator in ("MATCHES", "LIKE", "<", ">", "<=", ">="):', '        if False:'], "C09.value-operators-only"),
         ("ordered-by-canonical-text", "stix2/equivalence/pattern/transform/comparison.py", "text", ['        if ast.operator in ("MATCHES", "LIKE", "<", ">", "<=", ">="):', '        if ast.operator in ("MATCHES", "LIKE"):'], "C09.value-operators-only"),
         ("wildcard-index-as-string", "stix2/equivalence/pattern/compare/comparison.py", "text", ["                yield ANY_INDEX\n", "                yield comp.index\n"], "C09.type-guard"),
+        ("nul-in-address-escapes", "stix2/equivalence/pattern/transform/specials.py", "text", ["            ip_bytes = socket.inet_aton(ip_str)\n        except (OSError, ValueError):", "            ip_bytes = socket.inet_aton(ip_str)\n        except OSError:"], "C09.type-guard"),
     ],
     "C10": [
         ("negation-constant", "stix2/pattern_visitor.py", "last-arg-false", ["visitPropTestSet", "InComparisonExpression"], "C10.not-aware"),
